@@ -97,7 +97,6 @@ func init() {
 		if hi-lo > 4096 {
 			panic(unsupported{"Concretize range too large"})
 		}
-		p.assume(p.ctx.And(p.ctx.Sle(p.ctx.BV(uint64(lo), t.W), t), p.ctx.Sle(t, p.ctx.BV(uint64(hi), t.W))))
 		return p.ctx.BV(uint64(p.concretize(t, lo, hi)), t.W)
 	})
 	reg(v+"Choice", func(p *Path, _ *frame, a []Value) Value {
